@@ -6,7 +6,8 @@ Inputs (external effects): the file system state (`Fs`), the process context (`P
 uid/gid), the result of each `hooks::call` (`Env.hookOk`: `false` = a hard failure), the passwd and
 group databases (`Env.lookupUser/lookupGroup`), whether `chown` is permitted (`Env.chownOk`).
 NOT modelled: failures of `open`/`write_all`/`flush` (treated as succeeding), errors of
-`User::from_name` other than "no such user", what a hook itself does to the file system, the
+`User::from_name` other than "no such user", what a hook itself does to the file system (that is
+`Model/StorageFx.lean`: `writeFileFx` with effects `[]` is this `writeFile`), the
 rendering of `crt_name_format` (the rendered file name is an input of `fullPath`).
 
 `Trunc.yes` is the current code (`.truncate(true)`, storage.rs:222); `Trunc.no` is the tree before
